@@ -42,11 +42,13 @@ theorem opaqueTail_visible (hb : Cell → Nat × Nat) {st : St} (h : StOk st) : 
   unfold opaqueTail
   have hres := merge_visible (chOpt := st.chOpt) (defaultCell_visible st.dflt) h.1
   simp only
-  split
-  · exact makeSolid_visible hb _ hres
-  · cases ht : st.transp with
-    | none => exact hres
-    | some t => exact makeSolid_visible hb _ (h.2 t ht)
+  cases ht : st.transp with
+  | none =>
+    simp only
+    split
+    · exact makeSolid_visible hb _ hres
+    · exact hres
+  | some t => exact makeSolid_visible hb _ (h.2 t ht)
 
 /-- outcome of an iteration: a returned cell is visible, a continued state satisfies the invariant -/
 def StepOk : Step → Prop
